@@ -28,6 +28,8 @@ pub fn enumerate(prop: &str, tier: &str, f: &mut dyn FnMut(Case)) {
             gen::nfacts(lv, f);
             crate::gen_scale::core(lv, f);
             crate::gen_scale::names(lv, f);
+            crate::gen_mix::mix(lv, "all", f);
+            crate::gen_mix::lookalikes(lv, f);
             gen::core(lv, f);
         }
         "C12" => {
@@ -65,17 +67,21 @@ pub fn enumerate(prop: &str, tier: &str, f: &mut dyn FnMut(Case)) {
         }
         "C02" => {
             crate::gen_scale::cut(lv, f);
+            crate::gen_mix::mix(lv, "cut", f);
             gen::cut(lv, f);
         }
         "C03" => {
             crate::gen_scale::not(lv, f);
             crate::gen_scale::not_cmp(lv, f);
+            crate::gen_mix::mix(lv, "not", f);
+            crate::gen_mix::lookalikes(lv, f);
             gen::not(lv, f);
         }
         "C04" => {
             gen::output(lv, f);
             gen::timeg(lv, f);
             crate::gen_scale::output(lv, f);
+            crate::gen_mix::mix(lv, "out", f);
         }
         "C05" | "C10" | "C11" => {
             let l = if tier == "thorough" { 1 } else { 0 };
@@ -96,6 +102,8 @@ pub fn enumerate(prop: &str, tier: &str, f: &mut dyn FnMut(Case)) {
             crate::gen_scale::output(1, f);
             crate::gen_scale::alias(1, f);
             crate::gen_scale::names(1, f);
+            crate::gen_mix::mix(1, "all", f);
+            crate::gen_mix::lookalikes(1, f);
             gen::core(l, f);
         }
         _ => {}
@@ -472,7 +480,7 @@ pub fn worker(prop: &str, tier: &str) {
                     a.steps.len() == b.steps.len()
                         && b.panic.is_none()
                         && a.steps.iter().zip(b.steps.iter()).all(|(x, y)| {
-                            x.out == y.out
+                            crate::refbuiltins::normalise_timing(&x.out) == crate::refbuiltins::normalise_timing(&y.out)
                                 && match (&x.ans, &y.ans) {
                                     (None, None) => true,
                                     (Some(p), Some(q)) => variant_vec(std::slice::from_ref(p), std::slice::from_ref(q), false),
@@ -510,7 +518,7 @@ pub fn worker(prop: &str, tier: &str) {
                     let same = im2.steps.len() == im.steps.len()
                         && im2.panic.is_none()
                         && im.steps.iter().zip(im2.steps.iter()).all(|(x, y)| {
-                            x.out == y.out
+                            crate::refbuiltins::normalise_timing(&x.out) == crate::refbuiltins::normalise_timing(&y.out)
                                 && match (&x.ans, &y.ans) {
                                     (None, None) => true,
                                     (Some(p), Some(q)) => variant_vec(std::slice::from_ref(p), std::slice::from_ref(q), false),
@@ -583,7 +591,7 @@ pub fn replay(wit: &Value) -> bool {
         }
         runs.push(im);
     }
-    let same = runs[0].steps.len() == runs[1].steps.len() && runs[0].steps.iter().zip(runs[1].steps.iter()).all(|(a, b)| a.out == b.out && a.ans == b.ans);
+    let same = runs[0].steps.len() == runs[1].steps.len() && runs[0].steps.iter().zip(runs[1].steps.iter()).all(|(a, b)| crate::refbuiltins::normalise_timing(&a.out) == crate::refbuiltins::normalise_timing(&b.out) && a.ans == b.ans);
     if !same {
         eprintln!("NON-DETERMINISTIC: the two engine runs differ");
     }
